@@ -13,7 +13,7 @@ def sites(prog, names=None, units=None):
             continue
         if units is not None and un not in units:
             continue
-        for fn in u.functions.values():
+        for fn in u.roots():
             ord_ = {}
             for b, i, s in fn.stmts():
                 for c in calls(s):
